@@ -30,11 +30,12 @@ PROPS = {
         assumptions=["ingest hands the compressor header = first timestamp and non-zero uint32 timestamps"],
     ),
     "C09": dict(
-        suites=[("promql", 4000, 60000)],
-        trusted_base=["float64 arithmetic is not modelled: the correspondence run uses integer samples (|v| < 2^40, sums < 2^53) so sum/min/max/count are exact in float64; the avg quotient is compared after the Oracle's correctly rounded float64 division (f64div), which no theorem is about",
+        suites=[("promql", 4000, 60000), ("e2e_metrics", 1000, 15000)],
+        trusted_base=["e2e_metrics: lean/SigModel/Spec/Metrics.lean (the PromQL specification of selectors and sum/min/max/avg/count by/without that the engine's answer is compared with; regex matchers only in the fragment literal / .* / a|b), lib/e2ecmp.py compare_metrics (comparison + declared latitude)",
+                      "float64 arithmetic is not modelled: the correspondence run uses integer samples (|v| < 2^40, sums < 2^53) so sum/min/max/count are exact in float64; the avg quotient is compared after the Oracle's correctly rounded float64 division (f64div), which no theorem is about",
                       "overlay hook VerifGetAggSeriesId (pkg/segment/results/mresults) only exposes getAggSeriesId; series ids are produced by the real tsidtracker.BulkAdd/AddTSID in tag-filter order chosen by the generator (any order), goroutine interleaving inside DownsampleResults/AggregateResults is exercised with parallelism 1..4 and treated as order-insensitive"],
         decided_by_proof="results layer of metric queries, for every metric name, label set, field list, by/without, step and sample list: the group key cut out of the series-id string equals the PromQL group key rendered (and same key <=> same PromQL group) under the guard LabelSafe (no , : { in names/values/fields, no grouping field a proper suffix of a label name; counterexample theorems without it, exact characterisation 'value of the first label whose name ENDS WITH the field'); per group and bucket the reported value is sum of sums / min of mins / max of maxes / number of member series / pooled mean over the PromQL members (agg_correct, no further keys: agg_complete) under LabelSafe and CountOK (counterexample for count without ()); min <= avg <= max for all inputs; avg = sum/count when every series has one sample per bucket (counterexample otherwise: the downsampler folds a bucket with the query's own function); grouping by all labels = one group per label set; (ts/step)*step is the floor to the step grid",
-        partial="selector/matcher evaluation on the tags tree (=, !=, =~, !~ and the key=* filters of SelectAllSeries), the PromQL parser, the order in which tag filters are concatenated into the id, nested aggregations through ApplyAggregationToResults (agg2 operations: correspondence with the model's results2 only, no theorem; first stage restricted to sum/min/max/count so that the intermediate values stay integers), range/math/time/label functions, topk/bottomk/stddev/stdvar/quantile/group, histogram_quantile, vector arithmetic and label matching between vectors, open-vs-rotated and block/segment splits: NOT covered by this slice (some observed end-to-end by a one-off probe only, see known_findings); float64 rounding: not modelled",
+        partial="selector/matcher evaluation on the tags tree (=, !=, =~, !~ and the key=* filters of SelectAllSeries), the PromQL parser, the order in which tag filters are concatenated into the id, nested aggregations through ApplyAggregationToResults (agg2 operations: correspondence with the model's results2 only, no theorem; first stage restricted to sum/min/max/count so that the intermediate values stay integers), range/math/time/label functions, topk/bottomk/stddev/stdvar/quantile/group, histogram_quantile, vector arithmetic and label matching between vectors: NOT covered by proof. Selector/matcher evaluation, single-stage sum/min/max/avg/count with by/without/no grouping, open-vs-rotated and block/segment splits are covered only by the end-to-end differential e2e_metrics (sampled inputs, no theorem): real engine in a fresh process per case (OTSDB ingest, 0..2 block and segment rotations, ConvertPromQLToMetricsQuery + ExecuteMetricsQuery, every query answered again after one more forced rotation) against the Lean SPECIFICATION Spec/Metrics.lean (absent label = \"\", anchored regex, group = label subset, aggregate per group and timestamp as exact rationals; sum/avg on non-integers and queries whose points are not on bucket starts only with declared latitude). Nested aggregations, functions, binary operators, instant queries and the HTTP layer are not exercised end to end. Recorded deviations: known_findings.txt sig=e2em/in-class/*; float64 rounding: not modelled",
         assumptions=["label values are non-empty (PromQL treats an empty value as an absent label; the remote-write path stores what it is given) — the property check does not judge inputs with empty values",
                      "one series per label set within a query for count() without grouping fields (TSIDs are hashes of the full label set); duplicate ids are exercised for model correspondence only"],
     ),
